@@ -20,7 +20,7 @@ CLAIMED = {
     "C04": ("Coq theorems C04_multiply / C04_outputs (every pair node of the product circuit = Kronecker product of the operands' values) + "
             "correspondence of multiply_m with cirkit multiply inside Coq + product oracle on compiled circuits",
             "Machine-checked proof on the semantic model for all circuits; sampled correspondence and oracle tie it to the code.",
-            "C04_multiply_executable proves the executable operator multiply_m value-correct with every per-layer rule (Embedding, Polynomial, sum x sum column permutation, sorted Hadamard pairing, Kronecker x Kronecker permutation layer, disjoint joins); Categorical and Gaussian product rules (transcendental) are checked per instance only."),
+            "C04_multiply_executable proves the executable operator multiply_m value-correct with every per-layer rule (Embedding, Polynomial, sum x sum column permutation, sorted Hadamard pairing, Kronecker x Kronecker permutation layer, disjoint joins); the Categorical and Gaussian product rules are proved over the real numbers from a transcription of the torch nodes (C04_gaussian_product_rule, C04_categorical_product_rule; standard-library real-number axioms) and checked per instance against the code."),
     "C05": ("Coq theorems C05_differentiate / C05_outputs_sorted against an abstract iterated partial-derivative operator + "
             "correspondence of differentiate_m with cirkit differentiate inside Coq + autograd oracle on compiled circuits",
             "Machine-checked proof on the semantic model (any order through the abstraction); sampled correspondence and oracle tie it to the code.",
@@ -56,7 +56,7 @@ CLAIMED = {
     "C12": ("Coq theorems C12_partition_one / C12_partition_function / softmax and mixing row sums / non-negativity and positivity + verified predicate normalised_struct on "
             "exported template circuits + numeric Z = 1 before and after updates",
             "Machine-checked proof that circuits built from normalised parts have partition function one for every parameter value; templates are certified per instance by the structural predicate.",
-            "Gaussian / Binomial normalisation of the input layers themselves is an analytic fact taken as hypothesis."),
+            "Normalisation of the discrete input layers is proved (C12_binomial_normalised, C12_softmax_categorical_input_node, C12_partition_one_discrete: no hypothesis left on discrete inputs); only the Gaussian integral = 1 remains an analytic hypothesis."),
     "C13": ("Exact central difference quotient of the model's denotation (computed in Coq) vs autograd gradients mapped back through the registry + flag-independence + finite differences",
             "The folding/denotation theorems hold over any commutative semiring (hence over dual numbers); gradients are tied numerically to the model's exact difference quotient.",
             "Theorems C13_dual_semiring / dual_primal / leibniz / polynomial_derivative instantiate the circuit theorems at dual numbers; torch autograd of primitive operations is trusted and tied numerically."),
